@@ -34,8 +34,8 @@ SIMPLE = {
     'things:kwf': ('a', ['z0', 'z1']),
     'things:kwnames': ('x', ['_from', '_in', 'child']),
     'things:Lambda': ('x', ['y']),
-    'things:SubCM.make': ('x', ['child']),
-    'things:BaseCM.make': ('x', ['child']),
+    'things:SubCM.make': ('x', ['y', 'child']),
+    'things:BaseCM.make': ('x', ['y', 'child']),
     'things:kwg': ('a', ['z0', 'z1']),
 }
 
